@@ -251,12 +251,27 @@ func (w *World) waitChan(ch <-chan struct{}, bound time.Duration) bool {
 // collect hands everything the client wrote to the node models, in canonical
 // (connection id) order.
 func (w *World) collect() {
-	for _, c := range w.net.takeFresh() {
+	// Canonical order: by node, then by age of the connection. (The order in
+	// which the client dials several nodes at the same simulated instant is
+	// the Go runtime's; connection ids follow it and must not leak into the
+	// order in which the tape is consumed.)
+	byNode := func(cs []*simConn) {
+		sort.SliceStable(cs, func(i, j int) bool {
+			if cs[i].peer.idx != cs[j].peer.idx {
+				return cs[i].peer.idx < cs[j].peer.idx
+			}
+			return cs[i].id < cs[j].id
+		})
+	}
+	fresh := w.net.takeFresh()
+	byNode(fresh)
+	for _, c := range fresh {
 		c.peer.attach(c)
 	}
 	w.net.mu.Lock()
 	conns := append([]*simConn(nil), w.net.conns...)
 	w.net.mu.Unlock()
+	byNode(conns)
 	for _, c := range conns {
 		b, closed := c.take()
 		p := c.peer
